@@ -130,7 +130,7 @@ Proof.
 Qed.
 
 (* ... but the key is the LITERAL argument tuple: HGate(), HGate(2) and HGate(radix=2)
-   denote the same gate (radix 2) and are three different instances (finding D22) *)
+   denote the same gate (radix 2) and are three different instances (finding C18-F9) *)
 Definition h_default : key := mkKey 0 [] [].
 Definition h_pos : key := mkKey 0 [VInt 2] [].
 Definition h_kw : key := mkKey 0 [] [(0, VInt 2)].
